@@ -217,6 +217,13 @@ class Interp:
             raise Unsupported('statement %s (line %s)' % (type(s).__name__, getattr(s, 'lineno', '?')))
         return m(s, fr)
 
+    def st_Global(self, s, fr):
+        g = fr.vars.get('$globals')
+        if g is None:
+            g = set()
+            fr.vars['$globals'] = g
+        g.update(s.names)
+
     def st_Pass(self, s, fr):
         pass
 
@@ -620,6 +627,9 @@ class Interp:
         f = fr
         while f is not None:
             if name in f.vars:
+                if WRITTEN_GLOBALS and not LOADING[0] and '$module' in f.vars and (f.vars['$module'].name, name) in WRITTEN_GLOBALS:
+                    nm = '%s.%s' % (f.vars['$module'].name, name)
+                    GLOBAL_READS[nm] = GLOBAL_READS.get(nm, 0) + 1
                 return f.vars[name]
             f = f.parent
         if name in self.builtins:
@@ -1001,7 +1011,7 @@ class Interp:
             else:
                 di = i - (len(params) - len(defaults))
                 if di >= 0:
-                    fr.vars[p] = self.eval(defaults[di], Frame(parent=f.closure if f.closure is not None else f.module.frame))
+                    fr.vars[p] = self._default_of(f, ('pos', di), defaults[di], p)
                 else:
                     raise PyExc('TypeError', 'missing argument %s' % p, kind='call')
         if a.vararg is not None:
@@ -1010,7 +1020,7 @@ class Interp:
             if p.arg in kwargs:
                 fr.vars[p.arg] = kwargs.pop(p.arg)
             elif a.kw_defaults[i] is not None:
-                fr.vars[p.arg] = self.eval(a.kw_defaults[i], Frame(parent=f.module.frame))
+                fr.vars[p.arg] = self._default_of(f, ('kw', i), a.kw_defaults[i], p.arg)
             else:
                 raise PyExc('TypeError', 'missing kw argument', kind='call')
         if kwargs:
@@ -1019,6 +1029,25 @@ class Interp:
             else:
                 raise PyExc('TypeError', 'unexpected keyword %s' % list(kwargs), kind='call')
         return fr
+
+    def _default_of(self, f, key, expr, pname):
+        """default values are evaluated once per function object, as in CPython (evaluated at first use here: the
+        expressions are side-effect free in the subset); a mutable default is shared by every call and is therefore
+        module-level state for the frame obligation"""
+        cache = f.__dict__.setdefault('default_cache', {})
+        if key not in cache:
+            LOADING[0] += 1
+            try:
+                v = self.eval(expr, Frame(parent=f.closure if f.closure is not None else f.module.frame))
+            finally:
+                LOADING[0] -= 1
+            cache[key] = v
+            if isinstance(v, Mutable):
+                register_global('%s(<default of %s>)' % (f.qualname, pname), v)
+            elif isinstance(v, Obj):
+                for fn, fv in list(getattr(v, 'fields', {}).items()):
+                    register_global('%s(<default of %s>).%s' % (f.qualname, pname, fn), fv)
+        return cache[key]
 
     def inline(self, f, args, kwargs, node=None):
         fr = self.bind(f, args, kwargs)
